@@ -4,7 +4,7 @@
    the API calls; all schedules = all label sequences; repaired code, fixes/C17.patch).
    Specification: spec/SeederSpec.v. *)
 From Coq Require Import NArith List Bool Sorted.
-From LV Require Import model.Seeder spec.SeederSpec proofs.SeederProofs proofs.SeederQueues proofs.SeederSessions proofs.SeederLifetime proofs.SeederCounts proofs.SeederRefine proofs.SeederLiveness proofs.SeederOrder.
+From LV Require Import model.Seeder spec.SeederSpec proofs.SeederProofs proofs.SeederQueues proofs.SeederSessions proofs.SeederLifetime proofs.SeederCounts proofs.SeederRefine proofs.SeederLiveness proofs.SeederOrder model.Workers proofs.WorkersProofs.
 Import ListNotations.
 Local Open Scope N_scope.
 
@@ -86,6 +86,30 @@ Theorem C17_spec_counts_decides : forall ops exp incs,
     count_tag (r_serial rq) (inc_of c incs) = r_chunks rq \/
     exists x, In x (inc_of c incs) /\ o_done x = true /\ o_tag x <= r_serial rq.
 Proof. exact counts_ok_spec. Qed.
+
+(* utils/workers, the pool behind every sender thread (model/Workers.v: Enqueue / refuse after
+   quit / take / finish / exit / Drain / quit, all schedules): tasks are started in the order
+   in which Enqueue accepted them, every accepted task is queued, started or drained exactly
+   once, the channel stays within its capacity; with one worker (Start(1), what the seeder uses)
+   tasks are executed in acceptance order.  This is what the seeder model's "one FIFO per
+   sender" stands for; the two models are not composed in Coq. *)
+Theorem C17_workers_safe : forall cap n ops,
+  let s := wrun (w_init cap n) ops in
+  Sublist (w_started s ++ w_tasks s) (w_accepted s) /\
+  Permutation.Permutation (w_accepted s) (w_started s ++ w_tasks s ++ w_drained s) /\
+  Permutation.Permutation (w_started s) (w_executed s ++ w_running s) /\
+  (length (w_tasks s) <= Nat.max cap 1)%nat.
+Proof. exact workers_safe. Qed.
+
+Theorem C17_workers_one_fifo : forall cap ops,
+  let s := wrun (w_init cap 1) ops in
+  w_started s = w_executed s ++ w_running s /\ Sublist (w_executed s) (w_accepted s).
+Proof. exact one_worker_fifo. Qed.
+
+Example C17_workers_nontrivial :
+  let s := wrun (w_init 2 1) [WEnqueue 1; WEnqueue 2; WTake 0; WEnqueue 3; WEnqueue 4; WFinish 0; WTake 0; WDrain; WQuit; WFinish 0; WExit 0; WTake 0] in
+  w_executed s = [1; 2]%N /\ w_drained s = [3]%N /\ w_accepted s = [1; 2; 3]%N /\ w_workers s = [WGone].
+Proof. vm_compute. auto. Qed.
 
 (* non-vacuity: a sorted item list and a history in which a session is created, resumed and
    finished *)
@@ -245,6 +269,8 @@ Print Assumptions C17_sent_in_request_order.
 Print Assumptions C17_spec_tags_sorted_decides.
 Print Assumptions C17_spec_done_only_last_decides.
 Print Assumptions C17_spec_counts_decides.
+Print Assumptions C17_workers_safe.
+Print Assumptions C17_workers_one_fifo.
 Print Assumptions C17_peer_sessions_exact.
 Print Assumptions C17_session_resumable.
 Print Assumptions C17_resume_no_creation.
